@@ -141,12 +141,12 @@ def rule_r5(F, rep):
 
 
 def run(F, rep, tier):
-    units.rule_mix(F, rep, "C18.R1")
-    units.rule_char_and_user(F, rep, "C18.R1b")
-    rule_r2(F, rep)
-    units.rule_byte_index(F, rep, "C18.R3")
-    rule_r4(F, rep)
-    rule_r5(F, rep)
+    rep.attempt(units.rule_mix, F, rep, "C18.R1")
+    rep.attempt(units.rule_char_and_user, F, rep, "C18.R1b")
+    rep.attempt(rule_r2, F, rep)
+    rep.attempt(units.rule_byte_index, F, rep, "C18.R3")
+    rep.attempt(rule_r4, F, rep)
+    rep.attempt(rule_r5, F, rep)
     rep.assume("join/split/strip/replace/trim identities are delegated to str::{split,splitn,rsplitn,replace,"
                "strip_prefix,trim_matches} and not decided; `+- constant` after a search is accepted (documented miss)")
     return EXPLANATION
